@@ -103,17 +103,24 @@ def r04_1(ctx, S):
         ctx.check(outs == {want}, "R04.1", [b.path, "row", label],
                   "when [%s] the loop condition yields %s, documented: %s (continue <=> elapsed < max_time and (samples remain or elapsed < min_time))"
                   % (label, sorted(outs, key=str), want), b.where(S.cond_switch), detail={"when": label, "continue": str(want)})
-    # the final switch continues on true
-    t = b.term(S.cond_switch)
-    zero = [a[1] for a in t["arms"] if a[0] == "0"]
-    ctx.check(zero and zero[0] not in S.loop["body"] and t["otherwise"] in S.loop["body"], "R04.1", [b.path, "true-continues"],
-              "the loop does not continue on a true condition / leave on a false one", b.where(S.cond_switch))
+    entry = S.body_entry()
+    if entry is not None:
+        # rows are decided by where each path ends (loop body / outside): "continues on true" is what the rows say;
+        # the condition region is everything between the header and the body proper
+        region = (b.reach([S.loop["header"]], avoid=[entry]) & S.loop["body"]) - b.reach([entry], avoid=[S.loop["header"]])
+    else:
+        # the final switch continues on true
+        t = b.term(S.cond_switch)
+        zero = [a[1] for a in t["arms"] if a[0] == "0"]
+        ctx.check(zero and zero[0] not in S.loop["body"] and t["otherwise"] in S.loop["body"], "R04.1", [b.path, "true-continues"],
+                  "the loop does not continue on a true condition / leave on a false one", b.where(S.cond_switch))
+        region = b.between([p for p in b.pred[S.loop["header"]]], [S.cond_switch]) | {S.loop["header"]}
+        region = {x for x in region if x in S.loop["body"] and b.dominates(S.loop["header"], x) and S.cond_switch in b.reach([x])} - \
+            b.reach([t["otherwise"]], avoid=[S.loop["header"]])
     # no side effects in the condition region
-    region = b.between([p for p in b.pred[S.loop["header"]]], [S.cond_switch]) | {S.loop["header"]}
-    region = {x for x in region if x in S.loop["body"] and b.dominates(S.loop["header"], x) and S.cond_switch in b.reach([x])} - \
-        b.reach([t["otherwise"]], avoid=[S.loop["header"]])
     calls = sorted({b.call_at(x).callee for x in region if b.call_at(x) is not None})
-    ctx.check(set(calls) <= {"std::option::Option::unwrap_or"}, "R04.1", [b.path, "condition-is-pure"], "the loop condition calls %s" % calls, b.where(S.loop["header"]))
+    impure = [n_ for n_ in calls if n_ != "std::option::Option::unwrap_or" and not ("PartialEq" in n_ and n_.rsplit("::", 1)[-1] in ("eq", "ne") and "Option" in n_ + "Option")]
+    ctx.check(not impure, "R04.1", [b.path, "condition-is-pure"], "the loop condition calls %s" % impure, b.where(S.loop["header"]))
 
 
 def _fmt(k):
@@ -130,7 +137,11 @@ def r04_2(ctx, S):
             if not (set(b.returns) & b.reach([o])):
                 continue
             real_exits.append((x, o))
-    others = [(x, o) for x, o in real_exits if x != S.cond_switch]
+    # the loop condition may leave the loop from several tests (a short-circuit `a && (b || c)` branches straight out):
+    # everything before the body proper belongs to the condition
+    entry = S.body_entry()
+    after_entry = b.reach([entry], avoid=[S.loop["header"]]) if entry is not None else None
+    others = [(x, o) for x, o in real_exits if x != S.cond_switch and (after_entry is None or x in after_entry)]
     ok = len(others) == 1
     if ok:
         x, o = others[0]
